@@ -1,1 +1,219 @@
+/-
+C09 — Corruption inside a chunk and a missing middle chunk are reported.
+
+Part 1 (imported): CRC-32 single-byte lemmas, `Props/C09Crc.lean`.
+Part 2 (here): what `parseChunk` / `Chunk::open` / the `open` loop do with a
+record that fails to decode, with a record whose `tag ‖ body` has one byte
+altered, and with a gap between consecutive chunks.
+
+Helpers: `Proofs/Parse.lean`, `Proofs/Recover.lean`.
+-/
 import RaftLogModel.Props.C09Crc
+import RaftLogModel.Proofs.Recover
+namespace RaftLog
+
+/-! ### (f) A record that does not decode -/
+
+/-- (f) If the bytes after the well-formed records `rs` fail to decode with an
+error other than `UnexpectedEof`, the iteration stops exactly there with
+`invalid`; `Chunk::open` then returns the error `invalid`, except that an
+all-zero remainder is cut off when `truncate` is configured. -/
+theorem c09_checksum_mismatch_invalid (cfg : Cfg) (id : Nat) {rs : List Record} (h : AllWF rs)
+    {bs : Bytes} (hb : decRecord bs = .invalid) :
+    parseChunk (encAll rs ++ bs)
+        = (rs.map (fun r => (r, (encRecord r).length)), .invalid, bs) ∧
+    openChunk cfg id (encAll rs ++ bs) =
+      if allZero bs && cfg.truncate then
+        .ok ⟨rs, offsetsFrom id (rs.map (fun r => (encRecord r).length)), some (encAll rs).length⟩
+      else .error .invalid := by
+  have hp : parseChunk (encAll rs ++ bs) = (sized rs, .invalid, bs) := by
+    rw [parseChunk_encAll_append h, parseChunk_invalid hb]; simp
+  exact ⟨hp, by rw [openChunk_of_parse hp]; rfl⟩
+
+/-- (f) If the remainder is not all zeros the error is `invalid` for either
+setting of `truncate`. -/
+theorem c09_invalid_reported (cfg : Cfg) (id : Nat) {rs : List Record} (h : AllWF rs)
+    {bs : Bytes} (hb : decRecord bs = .invalid) (hz : allZero bs = false) :
+    openChunk cfg id (encAll rs ++ bs) = .error .invalid := by
+  rw [(c09_checksum_mismatch_invalid cfg id h hb).2, hz]; rfl
+
+/-- A stored checksum that differs from the CRC-32 of the record's
+`tag ‖ body` makes the decoder return `invalid` (the premise of (f)). -/
+theorem c09_wrong_sum_is_invalid (r : Record) (hr : r.WF) (sum : Bytes) (hl : sum.length = 8)
+    (hne : sum ≠ natToBE 8 (crc32 (encTB r))) (rest : Bytes) :
+    decRecord (encTB r ++ sum ++ rest) = .invalid :=
+  decRecord_bad_sum_bytes r hr sum hl hne rest
+
+/-- Chunk level: a record whose 8 checksum bytes were replaced, anywhere in a
+chunk, is reported as `invalid` at its position (unless everything from there on
+is zero and `truncate` is set — the zero-tail rule of C10). -/
+theorem c09_wrong_sum_chunk (cfg : Cfg) (id : Nat) {rs : List Record} (h : AllWF rs)
+    (r : Record) (hr : r.WF) (sum : Bytes) (hl : sum.length = 8)
+    (hne : sum ≠ natToBE 8 (crc32 (encTB r))) (rest : Bytes)
+    (hz : allZero (encTB r ++ sum ++ rest) = false) :
+    parseChunk (encAll rs ++ (encTB r ++ sum ++ rest))
+        = (rs.map (fun r => (r, (encRecord r).length)), .invalid, encTB r ++ sum ++ rest) ∧
+    openChunk cfg id (encAll rs ++ (encTB r ++ sum ++ rest)) = .error .invalid :=
+  ⟨(c09_checksum_mismatch_invalid cfg id h (c09_wrong_sum_is_invalid r hr sum hl hne rest)).1,
+    c09_invalid_reported cfg id h (c09_wrong_sum_is_invalid r hr sum hl hne rest) hz⟩
+
+/-! ### One byte of `tag ‖ body` altered -/
+
+/-- The frame of `r` with one byte of `tag ‖ body` replaced (`x ↦ y`) and the
+stored checksum kept. -/
+def mutated (r : Record) (pre post : Bytes) (y : UInt8) : Bytes :=
+  (pre ++ y :: post) ++ natToBE 8 (crc32 (encTB r))
+
+theorem mutated_length (r : Record) (pre post : Bytes) (x y : UInt8)
+    (hsplit : encTB r = pre ++ x :: post) :
+    (mutated r pre post y).length = (encRecord r).length := by
+  rw [encRecord_eq, hsplit]; simp [mutated]
+
+/-- Chunk-level corollary of the CRC theorems. The chunk holds the well-formed
+records `rs`, then the frame of `r` with one `tag ‖ body` byte altered, then any
+bytes `rest` (all other bytes as written). The parse returns `rs` followed by the
+parse of the damaged part, and at the damaged record exactly one of these holds:
+
+* the iteration stops there with `eof` or `invalid`, the remainder starting at
+  the damaged record; or
+* a record `r'` is decoded there that differs from `r` AND has a different
+  encoded length (possible only when the altered byte is a tag, option or length
+  byte, so that the decoder reads a body of another extent whose trailing 8 bytes
+  happen to be its CRC; a checksum over the consumed bytes cannot exclude this).
+
+A record of the original extent is never accepted. -/
+theorem c09_chunk_byte_altered {rs : List Record} (h : AllWF rs) (r : Record)
+    (pre post : Bytes) (x y : UInt8) (hsplit : encTB r = pre ++ x :: post) (hxy : x ≠ y)
+    (rest : Bytes) :
+    ∃ recs e rem,
+      parseChunk (encAll rs ++ (mutated r pre post y ++ rest))
+        = (rs.map (fun r => (r, (encRecord r).length)) ++ recs, e, rem) ∧
+      ((recs = [] ∧ (e = .eof ∨ e = .invalid) ∧ rem = mutated r pre post y ++ rest) ∨
+       (∃ r' more, recs = (r', (encRecord r').length) :: more ∧
+          (encRecord r').length ≠ (encRecord r).length ∧ r' ≠ r)) := by
+  have hM := mutated_length r pre post x y hsplit
+  have hne : mutated r pre post y ++ rest ≠ [] := by
+    intro hn
+    have := congrArg List.length hn
+    have hp := encRecord_length_pos r
+    rw [List.length_append, hM] at this
+    simp only [List.length_nil] at this
+    omega
+  rw [parseChunk_encAll_append h]
+  cases hd : decRecord (mutated r pre post y ++ rest) with
+  | eof =>
+    rw [parseChunk_eof hne hd]
+    exact ⟨[], .eof, _, rfl, Or.inl ⟨rfl, Or.inl rfl, rfl⟩⟩
+  | invalid =>
+    rw [parseChunk_invalid hd]
+    exact ⟨[], .invalid, _, rfl, Or.inl ⟨rfl, Or.inr rfl, rfl⟩⟩
+  | ok r' rest' =>
+    rw [parseChunk_ok hd]
+    have hext := c09_body_byte_decode_extent r pre post x y hsplit hxy rest rest' r' hd
+    have hl := decRecord_ok_length hd
+    have hlen : (encRecord r').length ≠ (encRecord r).length := by
+      rw [List.length_append, hM] at hl
+      omega
+    refine ⟨_, _, _, rfl, Or.inr ⟨r', _, rfl, hlen, ?_⟩⟩
+    intro he
+    exact hlen (by rw [he])
+
+/-- Consequently the parse of the damaged chunk never returns the original
+record list (whatever followed the damaged record), and neither does a
+successful `Chunk::open`. -/
+theorem c09_chunk_byte_altered_not_original {rs : List Record} (h : AllWF rs) (r : Record)
+    (pre post : Bytes) (x y : UInt8) (hsplit : encTB r = pre ++ x :: post) (hxy : x ≠ y)
+    (rest : Bytes) (after : List Record) :
+    (parseChunk (encAll rs ++ (mutated r pre post y ++ rest))).1.map (·.1) ≠ rs ++ r :: after ∧
+    ∀ cfg id oc, openChunk cfg id (encAll rs ++ (mutated r pre post y ++ rest)) = .ok oc →
+      oc.records ≠ rs ++ r :: after := by
+  have key : (parseChunk (encAll rs ++ (mutated r pre post y ++ rest))).1.map (·.1)
+      ≠ rs ++ r :: after := by
+    obtain ⟨recs, e, rem, hp, halt⟩ := c09_chunk_byte_altered h r pre post x y hsplit hxy rest
+    rw [hp]
+    intro hc
+    have hc' : rs ++ recs.map (·.1) = rs ++ r :: after := by
+      rw [← hc]
+      simp [List.map_append, List.map_map, Function.comp_def]
+    have hc'' := List.append_cancel_left hc'
+    rcases halt with ⟨hnil, _, _⟩ | ⟨r', more, hrecs, _, hne⟩
+    · rw [hnil] at hc''; cases hc''
+    · rw [hrecs] at hc''
+      simp only [List.map_cons, List.cons.injEq] at hc''
+      exact hne hc''.1
+  refine ⟨key, ?_⟩
+  intro cfg id oc hoc
+  obtain ⟨rs0, _, _, hparse, _, hrecs, _, _⟩ := openChunk_ok hoc
+  rw [hrecs]
+  intro hc
+  apply key
+  rw [hparse, sized_map_fst, hc]
+
+/-! ### (g) A missing middle chunk -/
+
+/-- (g) One step of the `open` loop: if the previous chunk's records ended at
+global offset `e` and the next chunk id is `b ≠ e`, the loop stops with the
+error `gap` before opening `b`: no file is modified and no event is emitted. -/
+theorem c09_missing_middle_chunk (cfg : Cfg) (b : Nat) (rest : List Nat) (acc : OpenAcc)
+    (e : Nat) (hprev : acc.prevEnd = some e) (hne : e ≠ b) :
+    ∃ acc', openLoop cfg (b :: rest) acc = (.err .gap, acc') ∧
+      acc'.fs = acc.fs ∧ acc'.evs = acc.evs := by
+  have hg : gapCheck acc b = true := by
+    simp [gapCheck, hprev, hne]
+  exact ⟨acc.pre, openLoop_gap cfg b rest acc hg, rfl, rfl⟩
+
+/-- (g) Two steps: the chunk ids are `a :: b :: rest`; chunk `a` is an undamaged
+file `encAll rs` that replays without error, so its records end at global offset
+`a + |encAll rs|`; if that is not `b`, `open` fails with `gap`, and neither the
+files nor the event list changed. -/
+theorem c09_missing_middle_chunk_two (cfg : Cfg) (a b : Nat) (rest : List Nat) (acc : OpenAcc)
+    (f : File) (rs : List Record) (sm2 : Store)
+    (habut : gapCheck acc a = false) (hfind : acc.fs.find a = some f)
+    (hdata : f.data = encAll rs) (hwf : AllWF rs)
+    (hr : replay a rs (offsetsFrom a (rs.map (fun r => (encRecord r).length))) acc.pre.sm
+      = .ok sm2)
+    (hgap : a + (encAll rs).length ≠ b) :
+    ∃ acc', openLoop cfg (a :: b :: rest) acc = (.err .gap, acc') ∧
+      acc'.fs = acc.fs ∧ acc'.evs = acc.evs := by
+  rw [openLoop_clean_step (b :: rest) habut hfind hdata hwf (Or.inr (by simp)) hr]
+  exact c09_missing_middle_chunk cfg b rest _ _ (OpenAcc.loaded_prevEnd acc a rs sm2) hgap
+
+/-- (g) at the level of `open`: a gap error leaves the directory as it was when
+it is detected right after cleanly loaded chunks. -/
+theorem c09_open_gap (cfg : Cfg) (fs : Fs) (ids : List Nat) (b : Nat) (rest : List Nat)
+    (a' : OpenAcc) (e : Nat)
+    (hids : fs.linkedIds = ids ++ b :: rest)
+    (hload : Loads cfg ids { sm := emptyStore cfg, fs := fs } a')
+    (hprev : a'.prevEnd = some e) (hne : e ≠ b) :
+    openStore cfg fs = (.err .gap, fs, []) := by
+  obtain ⟨acc', hl, hfs, hevs⟩ := c09_missing_middle_chunk cfg b rest a' e hprev hne
+  obtain ⟨hfs', hevs'⟩ := hload.fs_evs
+  unfold openStore
+  simp only [hids, hload.openLoop_append, hl, hfs, hevs, hfs', hevs']
+
+/-! ### Non-vacuity -/
+
+/-- `commit (1,2)` with its last checksum byte replaced, after one good record:
+`invalid` at that record. -/
+example : parseChunk (encAll [.saveVote ⟨3, 4⟩] ++
+      ((encRecord (.commit ⟨1, 2⟩)).take 27 ++ [0]))
+    = ([(.saveVote ⟨3, 4⟩, 28)], .invalid, (encRecord (.commit ⟨1, 2⟩)).take 27 ++ [0]) := by
+  decide +kernel
+
+/-- Two chunks `0` and `100`; chunk `0` holds 28 + 28 bytes: `open` reports the
+gap and leaves the directory alone. -/
+example : openStore {} [{ id := 0, data := encAll [.state {}, .commit ⟨1, 2⟩] },
+                        { id := 100, data := encAll [.state {}] }]
+    = (.err .gap, [{ id := 0, data := encAll [.state {}, .commit ⟨1, 2⟩] },
+                   { id := 100, data := encAll [.state {}] }], []) := by
+  decide +kernel
+
+/-- An instance of the byte-alteration corollary: first tag byte of
+`commit (1,2)` changed 0 ↦ 1. -/
+example : (parseChunk (encAll [] ++
+      (mutated (.commit ⟨1, 2⟩) [] (encTB (.commit ⟨1, 2⟩)).tail 1 ++ []))).1.map (·.1)
+    ≠ [] ++ Record.commit ⟨1, 2⟩ :: [] :=
+  (c09_chunk_byte_altered_not_original AllWF.nil (.commit ⟨1, 2⟩) [] _ 0 1
+    (by decide) (by decide) [] []).1
+
+end RaftLog
